@@ -66,7 +66,11 @@ class TComp(fm.TimeComponent):
 
     def _step(self):
         st = self.spec["steps"]
-        return D(st[self.cnt % len(st)])
+        by = self.spec.get("step_by")
+        # "step_by": the step length is switched from OUTSIDE (by the update count of another component), i.e. it can
+        # change between two updates of this component; the announced next time must follow
+        k = self.cnt if by is None else self.peers[by].cnt
+        return D(st[k % len(st)])
 
     def _next_time(self):
         # the SDK hook: TimeComponent.next_time (sdk/component.py) calls it
@@ -178,6 +182,8 @@ def build(case):
     comps = []
     for idx, spec in enumerate(comps_spec):
         comps.append((TComp if spec["kind"] == "T" else PComp)(idx, spec, events, t0))
+    for c in comps:
+        c.peers = comps
     composition = fm.Composition(comps, print_log=False)
     adapters = []
     fin_count = {}
